@@ -5,33 +5,43 @@
 cd "$(dirname "$0")/.."
 SUITE=0; FILTER=""
 for a in "$@"; do case "$a" in --suite) SUITE=1;; *) FILTER="$a";; esac; done
-[ -z "$(git -C /repo status --porcelain)" ] || { echo "/repo is not clean"; exit 4; }
-trap 'git -C /repo checkout -- . 2>/dev/null' EXIT
+# USE_MUT=1: work on the scratch copy (/tmp/repo_mut2 worktree + /tmp/verif_mut2 rsync copy) instead of /repo
+if [ -n "${USE_MUT:-}" ]; then
+  export ST_REPO=/tmp/repo_mut2 ST_RUN=/tmp/verif_mut2
+  [ -d $ST_REPO ] || git -C /repo worktree add --detach $ST_REPO HEAD >/dev/null 2>&1
+  rsync -a --delete --exclude harness/target --exclude .git --exclude replays --exclude evidence --exclude harness/Cargo.toml ./ $ST_RUN/
+  [ -f $ST_RUN/harness/Cargo.toml ] || sed "s#/repo/chitchat#$ST_REPO/chitchat#" harness/Cargo.toml > $ST_RUN/harness/Cargo.toml
+else
+  export ST_REPO=/repo ST_RUN=$PWD
+fi
+[ -z "$(git -C $ST_REPO status --porcelain)" ] || { echo "$ST_REPO is not clean"; exit 4; }
+trap 'git -C $ST_REPO checkout -- . 2>/dev/null' EXIT
 mkdir -p mutants/results
 python3 - "$SUITE" "$FILTER" <<'PY'
 import json, subprocess, sys, time, os
 suite = sys.argv[1] == "1"; flt = sys.argv[2]
+REPO = os.environ["ST_REPO"]; RUN = os.environ["ST_RUN"]
 idx = json.load(open("mutants/index.json"))
 rows = []
 for m in idx:
     if flt and flt not in m["name"]: continue
     patch = f"mutants/{m['name']}.patch"
-    r = subprocess.run(["git","-C","/repo","apply",os.path.abspath(patch)],capture_output=True,text=True)
+    r = subprocess.run(["git","-C",REPO,"apply",os.path.abspath(patch)],capture_output=True,text=True)
     if r.returncode != 0:
         rows.append((m["name"], "PATCH-FAILED", "", "")); print(m["name"], "patch failed", r.stderr[:200]); continue
     res = {}
     try:
         for p in m["expected"]:
             t=time.time()
-            out = subprocess.run(["./check", p, "--tier", "quick"],capture_output=True,text=True)
+            out = subprocess.run(["./check", p, "--tier", "quick"],capture_output=True,text=True,cwd=RUN)
             res[p] = (out.returncode, round(time.time()-t,1), [l for l in out.stdout.splitlines() if l.startswith("VIOLATION")][:1])
         st = ""
         if suite:
             env = dict(os.environ, RUSTUP_TOOLCHAIN="1.88.0")
-            out = subprocess.run("cd /repo && cargo nextest run --workspace --no-fail-fast --tool-config-file pb:/w/lib/nextest.toml --profile pb --test-threads 8 --offline 2>&1 | grep -E 'Summary|FAIL ' | head -5", shell=True, capture_output=True, text=True, env=env)
+            out = subprocess.run(f"cd {REPO} && " "cargo nextest run --workspace --no-fail-fast --tool-config-file pb:/w/lib/nextest.toml --profile pb --test-threads 8 --offline 2>&1 | grep -E 'Summary|FAIL ' | head -5", shell=True, capture_output=True, text=True, env=env)
             st = out.stdout.strip().replace("\n"," | ")
     finally:
-        subprocess.run(["git","-C","/repo","checkout","--","."])
+        subprocess.run(["git","-C",REPO,"checkout","--","."])
     caught = [p for p,(rc,_,_) in res.items() if rc == 1]
     other = [f"{p}:rc={rc}" for p,(rc,_,_) in res.items() if rc not in (0,1)]
     verdict = "CAUGHT" if caught else "MISSED"
